@@ -188,11 +188,11 @@ Lemma pe_loop_canon (rec : recT) : rec_canon rec ->
   forall k name ty attrs comment pos content elem_idx snf stored path st t st' mode,
   PL rec k name ty attrs comment pos content elem_idx snf stored path st = Val (Ret t st') ->
   etype_ok T ty -> content_mode T ty = Val mode ->
-  (snf = true -> existsb (is_short T) content = true) ->
+  (snf = true -> head_short T content = true) ->
   p_version st' = p_version st /\
   exists more named, t = ENode name ty attrs (content ++ more) comment /\
     (kids_known T ty more = false -> CHILDREN (p_version st) ty mode elem_idx content more) /\
-    is_named_in_version T ty (p_version st) = Val named /\ (named = true -> existsb (is_short T) (content ++ more) = true).
+    is_named_in_version T ty (p_version st) = Val named /\ (named = true -> head_short T (content ++ more) = true).
 Proof.
   intros HR. induction k as [|k IH]; intros name ty attrs comment pos content elem_idx snf stored path st t st' mode H TY CM SNF;
     [discriminate H|].
@@ -224,25 +224,26 @@ Proof.
     assert (VS : p_version s8 = p_version st) by congruence.
     assert (V2' : p_version s2 = p_version st) by congruence. rewrite V2' in E4.
     assert (FIN : forall snf2 p2 s9, p_version s9 = p_version st ->
-       (snf2 = true -> existsb (is_short T) (content ++ [inl sub]) = true) ->
+       (snf2 = true -> head_short T (content ++ [inl sub]) = true) ->
        PL rec k name ty attrs comment pos (content ++ [inl sub]) idx' snf2 None p2 s9 = Val (Ret t st') ->
        p_version st' = p_version st /\
        exists more named, t = ENode name ty attrs (content ++ more) comment /\
          (kids_known T ty more = false -> CHILDREN (p_version st) ty mode elem_idx content more) /\
-         is_named_in_version T ty (p_version st) = Val named /\ (named = true -> existsb (is_short T) (content ++ more) = true)).
+         is_named_in_version T ty (p_version st) = Val named /\ (named = true -> head_short T (content ++ more) = true)).
     { intros snf2 p2 s9 V9 SNF2 HL. destruct (IH _ _ _ _ _ _ _ _ _ _ _ _ _ _ HL TY CM SNF2) as (VF & more & named & -> & CO & NV & NM).
       rewrite V9 in *. split; [exact VF|]. exists (inl sub :: more), named. rewrite <- app_assoc in *. cbn [app] in *.
       split; [reflexivity|]. split; [|split; [exact NV|exact NM]].
       intros KK. cbn [kids_known] in KK. apply orb_false_iff in KK as [K1 K2].
       eapply ck_elem; [rewrite NS, TS; exact E4|exact E5|rewrite NS; exact E6|exact (CS K1)|exact (CO K2)]. }
-    destruct (sub_name =? name_short_name T) eqn:ISN.
-    + assert (SNF2 : true = true -> existsb (is_short T) (content ++ [inl sub]) = true).
-      { intros _. rewrite existsb_app. cbn [existsb is_short]. rewrite NS, ISN. rewrite orb_true_r. reflexivity. }
-      destruct (first_string sub).
-      * inv H as u9 s9 E9. injection E9 as _ <-. eapply (FIN true); [|exact SNF2|exact H]. cbn [p_version add_ident]. exact VS.
-      * eapply (FIN true); [exact VS|exact SNF2|exact H].
-    + eapply (FIN snf); [exact VS| |exact H].
-      intros S1. rewrite existsb_app, (SNF S1). reflexivity.
+    assert (KEEP : snf = true -> head_short T (content ++ [inl sub]) = true).
+    { intros S1. specialize (SNF S1). destruct content; [discriminate SNF|exact SNF]. }
+    destruct (sub_name =? name_short_name T) eqn:ISN; cbn [andb] in H; [|eapply (FIN snf); [exact VS|exact KEEP|exact H]].
+    destruct content as [|c0 cr] eqn:EC; [|rewrite <- EC in *; eapply (FIN snf); [exact VS|exact KEEP|exact H]].
+    assert (SNF2 : true = true -> head_short T ([] ++ [inl sub]) = true).
+    { intros _. cbn [app head_short is_short]. rewrite NS, ISN. reflexivity. }
+    destruct (first_string sub).
+    + inv H as u9 s9 E9. injection E9 as _ <-. eapply (FIN true); [|exact SNF2|exact H]. cbn [p_version add_ident]. exact VS.
+    + eapply (FIN true); [exact VS|exact SNF2|exact H].
   - inv H as nm s3 E3. apply lift_ret_inv in E3 as [_ ->]. destruct nm as [n|]; [|discriminate H].
     destruct (n =? name); [|discriminate H].
     inv H as g s4 E4. apply get_ret_inv in E4 as [-> ->].
@@ -261,8 +262,8 @@ Proof.
       inv H as u6 s6 E6.
       assert (V6 : p_version s6 = p_version s4).
       { destruct value; try (injection E6 as _ <-; reflexivity). destruct isr; injection E6 as _ <-; reflexivity. }
-      assert (SNF2 : snf = true -> existsb (is_short T) (content ++ [inr value]) = true).
-      { intros S1. rewrite existsb_app, (SNF S1). reflexivity. }
+      assert (SNF2 : snf = true -> head_short T (content ++ [inr value]) = true).
+      { intros S1. specialize (SNF S1). destruct content; [discriminate SNF|exact SNF]. }
       destruct (IH _ _ _ _ _ _ _ _ _ _ _ _ _ _ H TY CM SNF2) as (VF & more & named & -> & CO & NV & NM).
       assert (VV : p_version s6 = p_version st) by congruence. rewrite VV in *.
       split; [exact VF|]. exists (inr value :: more), named. rewrite <- app_assoc in *. cbn [app] in *.
